@@ -9,7 +9,7 @@ Stage K, for every generated (module, value, codec):
 """
 from .. import core, impl
 from ..codecs import MODELLED, RT_CODECS, value_tags, py_equal, impl_answer_enc, impl_answer_dec
-from ..gen import Gen, Opts, module_text, ty_sx, val_sx, canon_py, features, is_modelled, RefCtx
+from ..gen import Gen, Opts, module_text, ty_sx, val_sx, canon_py, features, is_modelled, RefCtx, variant
 
 CODECS = ['ber', 'der', 'per', 'uper', 'oer']
 CANONICAL = ('der', 'per', 'uper', 'oer')
@@ -142,7 +142,8 @@ def run(ctx):
     TAGFREE = ('uper', 'per')      # encodings that do not depend on tags when no CHOICE/SET is involved
     for i in range(nmods):
         g = Gen(rng, opts if i % 4 else opts_ext)
-        types = [('A', g.type()), ('B', g.type())]
+        ta = g.type()
+        types = [('A', ta), ('B', variant(g, ta) if rng.random() < 0.4 else g.type())]
         plain = module_text(types)
         # member-level `Ref (SIZE(..))` only for OCTET STRING: the codecs ignore it for other kinds (finding C11/C05 size-on-reference)
         rc = RefCtx(rng, p_type=0.35, p_value=0.3, p_con_on_ref=0.3, con_kinds=('octs',))
